@@ -160,23 +160,42 @@ fn scenario(rng: &mut Rng) -> (Program, &'static str) {
             };
             let prims = [PrimK::Num, PrimK::Str, PrimK::Bool];
             let mut ps = Vec::new();
+            let mut decls = vec![f];
+            let mut stmts = vec![Stmt::Let { id: 0 }];
+            // some applications stand in a reference declaration of their own (`let @a1 = f str;`): each instantiation
+            // is evaluated inside another named component
+            let named = rng.chance(1, 2);
             for i in 0..k {
                 let span = if rng.chance(1, 2) { 1 } else { 3 };
                 let a = E::Prim(prims[rng.below(span)]);
-                ps.push(prop(
-                    &format!("a{i}"),
-                    E::App {
-                        f: Box::new(E::var("f", Target::Decl(0))),
-                        args: vec![a],
-                    },
-                ));
+                let app = E::App {
+                    f: Box::new(E::var("f", Target::Decl(0))),
+                    args: vec![a],
+                };
+                if named && rng.chance(2, 3) {
+                    let id = decls.len();
+                    let name = format!("@a{i}");
+                    decls.push(Decl {
+                        module: 0,
+                        name: name.clone(),
+                        params: vec![],
+                        anns: vec![],
+                        rhs: app,
+                        ty: Ty::Obj,
+                    });
+                    stmts.push(Stmt::Let { id });
+                    ps.push(prop(&format!("a{i}"), E::var(&name, Target::Decl(id))));
+                } else {
+                    ps.push(prop(&format!("a{i}"), app));
+                }
             }
+            stmts.push(res("x", obj(ps)));
             let p = Program {
                 modules: vec![Module {
                     file: "main.oal".into(),
-                    stmts: vec![Stmt::Let { id: 0 }, res("x", obj(ps))],
+                    stmts,
                 }],
-                decls: vec![f],
+                decls,
                 n_recs: 2,
             };
             (p, "rec-in-function")
